@@ -717,6 +717,8 @@ class History:
             else:
                 points.append((k, 'zero'))
         points.append((len(events), 'zero'))
+        STATS['crash_points_enumerated'] += len(points)
+        STATS['operations_swept'] += 1
         base = {x: y for x, y in op.items() if x not in ('sweep', 'crash')}
         for k, jmode in points:
             ex.restore()
@@ -764,6 +766,7 @@ class Packages:
 
 
 _ENV = {}
+STATS = {'crash_points_enumerated': 0, 'operations_swept': 0}
 
 
 def env(ctx):
@@ -772,6 +775,8 @@ def env(ctx):
         base = os.path.join(ctx.scratch, f'c05-{pid}')
         shutil.rmtree(base, ignore_errors=True)
         os.makedirs(base)
+        for name in STATS:  # a forked shard starts counting afresh
+            STATS[name] = 0
         _ENV.update(pid=pid, base=base, packages=Packages(os.path.join(base, 'pkgs')), counter=itertools.count())
     return _ENV
 
@@ -851,14 +856,43 @@ CANONICAL = [
 
 def campaigns(ctx):
     return [
-        Campaign('history', history('posix'), check_history, 80, 40),
-        Campaign('gaps', history('posix', gap=True), check_history, 12, 6),
-        Campaign('volatile', history('volatile'), check_history, 30, 150),
+        Campaign('history', history('posix'), check_history, 80, 16),
+        Campaign('gaps', history('posix', gap=True), check_history, 12, 3),
+        Campaign('volatile', history('volatile'), check_history, 30, 60),
     ]
+
+
+def spawn_equivalence(ctx):
+    """Validate the isolation discipline once per run: a really fresh interpreter observes what a forked child does."""
+    import json
+    import subprocess
+    import sys
+
+    ex = ForkExec(os.path.join(env(ctx)['base'], 'spawn'))
+    try:
+        pkg = env(ctx)['packages'](PROJECTS[0], '1.0')
+        ex.publish(PROJECTS[0], pkg['dir']['path'])
+        for n in (1, 2):
+            ex.train(PROJECTS[0], None, ['aa' * n, 'bb'], {'mode': 'trigger', 'ts': n, 'us': 0})
+        forked = ex.observe()
+        code = 'import json, sys\nfrom vf.regx import world as W\nprint("\\n@@" + json.dumps(W.observe(W.registry_at(sys.argv[1]))))'
+        out = subprocess.run([sys.executable, '-W', 'ignore', '-c', code, ex.root], capture_output=True, text=True, timeout=120, check=False)
+        lines = [ln for ln in out.stdout.splitlines() if ln.startswith('@@')]
+        if not lines:
+            ctx.inconclusive.append(f'spawned observer failed: {out.stderr[-300:]}')
+            return
+        spawned = json.loads(lines[-1][2:])
+        ctx.extra['fork_equals_spawn'] = spawned == forked
+        if spawned != forked or len(forked.get(PROJECTS[0], {}).get('1.0', {}).get('gens', {})) != 2:
+            raise W.HarnessFault(f'forked observation differs from a spawned interpreter: {forked} vs {spawned}')
+    finally:
+        ex.close()
 
 
 def enumerate_extra(ctx, shard, nshards):
     ctx.campaign = 'history'
+    if shard == 0:
+        spawn_equivalence(ctx)
     for idx, ops in enumerate(CANONICAL):
         if idx % nshards != shard:
             continue
@@ -867,6 +901,9 @@ def enumerate_extra(ctx, shard, nshards):
             ctx.campaign = 'volatile'
             check_history(ctx, {'registry': 'volatile', 'ops': [{k: v for k, v in op.items() if k != 'sweep'} for op in ops]})
             ctx.campaign = 'history'
+    for name, value in STATS.items():  # summed over the shards by Ctx.merge
+        ctx.extra[name] = ctx.extra.get(name, 0) + value
+        STATS[name] = 0
     shutil.rmtree(env(ctx)['base'], ignore_errors=True)
     _ENV.clear()
 
